@@ -233,6 +233,21 @@ def host_workload(ops, rng, n):
             ops.reset()
             ops.parse(1, 0, 'https://%s%s/' % (name, port))
             ops.parse(1, 0, 'https://%s.%s/' % (name, port))
+    # setting the host an object already has, in the same and in another spelling: the kind must survive
+    same = [('[::1]', ['[::1]', '[0:0:0:0:0:0:0:1]', '[::0001]']), ('[2001:db8::7]', ['[2001:DB8:0:0:0:0:0:7]', '[2001:db8::7]']),
+            ('[::ffff:102:304]', ['[::ffff:1.2.3.4]', '[::FFFF:102:304]']), ('1.2.3.4', ['1.2.3.4', '0x1020304', '1.2.772', '01.02.03.04']),
+            ('example.com', ['example.com', 'EXAMPLE.com', 'ex%61mple.com'])]
+    for cur, spellings in same:
+        for scheme in ('http', 'foo'):
+            if scheme == 'foo' and not cur.startswith('['):
+                continue
+            for sp in spellings:
+                for op in ('host', 'hostname'):
+                    ops.reset()
+                    ops.parse(1, 0, '%s://%s:8080/p' % (scheme, cur))
+                    ops.set(1, op, sp + (':81' if op == 'host' and sp.endswith(']') and sp != cur else ''))
+                    ops.reparse(1)
+                    ops.parse(2, 1, '../x')
     # the IPv4 number lattice: every boundary value in every base (decimal, hex in both cases, octal, extra leading
     # zeros) as the last part of a 1-, 2-, 3- and 4-part address, with and without the trailing dot
     k = 0
